@@ -10,7 +10,7 @@ import (
 	"runtime"
 	"runtime/debug"
 	"strings"
-	"sync"
+	"sync/atomic"
 	"time"
 
 	"github.com/goghcrow/yae/closure"
@@ -41,7 +41,24 @@ var BackendNames = [NBackends]string{"vm-switch", "vm-callthread", "closure", "i
 // checkMu serialises types.Check / types.TyVar: the process-wide type-variable
 // counter is unsynchronised (F11, property C14 — not decided here); without
 // the lock concurrent workers could make the harness non-deterministic.
-var checkMu sync.Mutex
+var checkMu spinLock
+
+// spinLock: the critical section (one types.Check / types.TyVar) takes a few
+// microseconds; a parking mutex costs far more than that under contention.
+type spinLock struct{ v int32 }
+
+func (s *spinLock) Lock() {
+	for i := 0; !atomic.CompareAndSwapInt32(&s.v, 0, 1); i++ {
+		if i%64 == 63 {
+			runtime.Gosched()
+		}
+	}
+}
+
+func (s *spinLock) Unlock() { atomic.StoreInt32(&s.v, 0) }
+
+func lockCheck()   { checkMu.Lock() }
+func unlockCheck() { checkMu.Unlock() }
 
 type Engine struct {
 	lex   func(string) []*token.Token
@@ -179,9 +196,9 @@ func (e *Engine) CompileCore(core ast.Expr, tenv *types.Env) *Compiled {
 }
 
 func (e *Engine) finish(c *Compiled, tenv *types.Env) {
-	checkMu.Lock()
+	lockCheck()
 	m := guard(func() { c.Static = types.Check(c.CoreAST, tenv) })
-	checkMu.Unlock()
+	unlockCheck()
 	if m != "" {
 		c.Stage, c.Err = "check", m
 		return
